@@ -776,6 +776,10 @@ class Tr:
         if 'st' in asg:
             self.mutates = True; self.uses_this = True
         if not asg:
+            # a loop whose body has no effect the translator recognises must not vanish silently (it may write through a
+            # construct `assigned` does not see); units that really contain an effect-free loop say so with allow_dead_loops
+            if not self.unit.get('allow_dead_loops'):
+                raise Unsupported('for-loop with no recognised effect (would be dropped)')
             return cont()
         tup = '(%s)' % ', '.join(asg) if len(asg) > 1 else asg[0]
         pat = "'" + tup if len(asg) > 1 else tup
